@@ -21,8 +21,8 @@ EXTENDS Auth, Json, IOUtils, TLCExt
 Batch == JsonDeserialize(IOEnv.TRACE_FILE)
 N == Len(Batch)
 
-VARIABLE tid
-tvars == <<req, cb, pc, actual, authz, cov, out, path, tid>>
+VARIABLES tid, obs
+tvars == <<req, cb, pc, actual, authz, cov, out, path, tid, obs>>
 
 SetOf(s) == {s[i] : i \in 1 .. Len(s)}
 Seq2(s) == <<s[1], s[2]>>
@@ -66,16 +66,20 @@ ObsOK(o) == LET r == ObsOut(o) IN
   /\ o.lossy => ContentInsideOn([r EXCEPT !.px = [j \in DOMAIN r.px |-> [i \in DOMAIN r.px[j] |->
                                    IF r.px[j][i] = 0 THEN Mask({RefTop}) ELSE r.px[j][i]]]])
 
+\* (the batch is deserialized once: LET values are evaluated at most once)
 TraceInit ==
-  /\ tid \in 1 .. N
-  /\ req = ReqOf(Batch[tid].req) /\ cb = CbOf(Batch[tid].cb)
-  /\ pc = "start" /\ actual = <<>> /\ authz = [all |-> FALSE, lims |-> <<>>] /\ cov = {} /\ out = NoOut /\ path = <<>>
-  /\ (~ObsOK(Batch[tid].obs)) => TLCSet(2, TLCGet(2) \cup {tid})
+  LET B == Batch IN
+  \E t \in 1 .. Len(B) :
+    /\ tid = t /\ obs = B[t].obs
+    /\ req = ReqOf(B[t].req) /\ cb = CbOf(B[t].cb)
+    /\ pc = "start" /\ actual = <<>> /\ authz = [all |-> FALSE, lims |-> <<>>] /\ cov = {} /\ out = NoOut /\ path = <<>>
 
+\* the property is evaluated on the observation in the first step (req and cb are state by then)
 TraceNext ==
   /\ Next
-  /\ tid' = tid
-  /\ (pc' = "done" /\ Match(Batch[tid].obs, out')) => TLCSet(1, TLCGet(1) \cup {tid})
+  /\ UNCHANGED <<tid, obs>>
+  /\ (pc = "start" /\ ~ObsOK(obs)) => TLCSet(2, TLCGet(2) \cup {tid})
+  /\ (pc' = "done" /\ Match(obs, out')) => TLCSet(1, TLCGet(1) \cup {tid})
 
 TraceSpec == TraceInit /\ [][TraceNext]_tvars
 
